@@ -427,7 +427,23 @@ func (e *enumerator) stmt(s ast.Stmt, p Path, depth int, k kont) {
 		e.stmt(v.Stmt, p, depth, k)
 	case *ast.DeferStmt:
 		k(append(p, Event{Kind: "DEFER", Pos: v.Pos(), Node: v}), "")
-	case *ast.SelectStmt, *ast.TypeSwitchStmt, *ast.GoStmt:
+	case *ast.SelectStmt:
+		// every communication clause may be the one taken: COMM(<comm text>) then its body
+		for _, cs := range v.Body.List {
+			cc := cs.(*ast.CommClause)
+			arg := "default"
+			if cc.Comm != nil {
+				arg = nodeText(cc.Comm)
+			}
+			q := append(append(Path{}, p...), Event{Kind: "COMM", Arg: arg, Pos: cc.Pos(), Node: cc})
+			e.block(cc.Body, q, depth, func(p2 Path, ctl string) {
+				if ctl == "break" {
+					ctl = ""
+				}
+				k(p2, ctl)
+			})
+		}
+	case *ast.TypeSwitchStmt, *ast.GoStmt:
 		k(append(p, Event{Kind: "OPAQUE", Pos: v.Pos(), Node: v}), "")
 	default:
 		e.events(s, p, depth, func(p2 Path) { k(p2, "") })
@@ -485,4 +501,20 @@ func indexOf(s, sub string) int {
 		}
 	}
 	return -1
+}
+
+func nodeText(n ast.Node) string {
+	switch v := n.(type) {
+	case *ast.ExprStmt:
+		return types.ExprString(v.X)
+	case *ast.AssignStmt:
+		s := ""
+		for _, r := range v.Rhs {
+			s += types.ExprString(r)
+		}
+		return s
+	case *ast.SendStmt:
+		return types.ExprString(v.Chan) + "<-"
+	}
+	return ""
 }
